@@ -48,6 +48,7 @@ func run(c *core.Ctx) {
 	k.runAfterFailedWrite()
 	k.runLoadAfterReplace()
 	k.runAfterFailedRead()
+	k.runSinks()
 	if c.Expired() {
 		return
 	}
@@ -85,6 +86,9 @@ func replay(c *core.Ctx) {
 	case "after-failed-read":
 		k.idx = -1 << 30
 		k.runAfterFailedReadReplay()
+	case "sinks":
+		k.idx = -1 << 30
+		k.runSinksReplay()
 	case "splat-ladder":
 		k.splatCase(ladderCloud(cs.N), "replay", cs)
 	case "spz":
